@@ -271,6 +271,35 @@ static void part_c()
     R.part("stated lengths 2^32, 2^32+k, 2^40, 2^63 and the largest size value on complete NUL-terminated input: decoder and length counter behave as with the exact length", n, n);
 }
 
+// ---------------------------------------------------------------- the same buffer decoded again after an in-place edit
+// straight-line code through an opaque pointer at -O2: every call reads the bytes as they are at that moment
+static __attribute__((noinline)) void decode_twice(unsigned char *p, a_size n, a_u32 *val, unsigned *len, a_size *cnt, a_size *stop)
+{
+    len[0] = a_utf_decode(p, n, &val[0]);
+    len[1] = a_utf_decode(p, n, nullptr);
+    cnt[0] = a_utf_length(p, n, &stop[0]);
+    cnt[1] = a_utf_length(p, n, nullptr);
+    p[0] = 0xE2; p[1] = 0x82; p[2] = 0xAC; // the three-byte form of U+20AC over what was "A" + two-byte U+00E9
+    len[2] = a_utf_decode(p, n, &val[1]);
+    len[3] = a_utf_decode(p, n, nullptr);
+    cnt[2] = a_utf_length(p, n, &stop[1]);
+    cnt[3] = a_utf_length(p, n, nullptr);
+}
+static void part_d()
+{
+    if (R.shard.idx != 0) { return; }
+    unsigned char buf[8] = {0x41, 0xC3, 0xA9, 0x42, 0, 0, 0, 0};
+    a_u32 val[2] = {0, 0};
+    unsigned len[4];
+    a_size cnt[4], stop[2] = {0, 0};
+    unsigned char *volatile vp = buf;
+    decode_twice(vp, 4, val, len, cnt, stop);
+    // before: 'A' (1 byte), U+00E9 (2), 'B' (1): 3 code points over 4 bytes; after: U+20AC (3), 'B' (1): 2 code points over 4 bytes
+    bool ok = len[0] == 1 && len[1] == 1 && val[0] == 0x41 && cnt[0] == 3 && cnt[1] == 3 && stop[0] == 4 && len[2] == 3 && len[3] == 3 && val[1] == 0x20AC && cnt[2] == 2 && cnt[3] == 2 && stop[1] == 4;
+    if (!ok) { R.viol("utf|reread", "a_utf_decode / a_utf_length called again with the same pointer after the bytes changed in place: lengths " + std::to_string(len[0]) + "," + std::to_string(len[1]) + " then " + std::to_string(len[2]) + "," + std::to_string(len[3]) + ", counts " + std::to_string(cnt[0]) + "," + std::to_string(cnt[1]) + " then " + std::to_string(cnt[2]) + "," + std::to_string(cnt[3]) + " (expected 1,1 then 3,3 and 3,3 then 2,2)", "{}"); }
+    R.part("decoder and length counter called again with the same pointer after the bytes changed in place (straight-line code at -O2)", 8, 8);
+}
+
 int main(int argc, char **argv)
 {
     vx::Args args(argc, argv);
@@ -283,6 +312,7 @@ int main(int argc, char **argv)
         part_a(thorough);
         part_b(thorough);
         part_c();
+        part_d();
         R.finish(true, "every listed domain enumerated completely");
     }, 120.0);
 }
